@@ -313,6 +313,27 @@ def run_case(case):
             h = have if isinstance(have, str) else nz(dict(have), Poly.zero)
             if h != exp:
                 fails.append(_fail(f"solve_{side}(b) is the least solution", dict(inp0, b=bname), h, exp))
+            # the right-hand side belongs to the caller: it is not modified, and solving again with the
+            # SAME object (on the same graph) gives the same answer
+            if nz(dict(bc), Poly.zero) != {i: v for i, v in b.items() if v != Poly.zero}:
+                fails.append(_fail(f"solve_{side}(b) leaves its argument b unchanged", dict(inp0, b=bname), nz(dict(bc), Poly.zero), b))
+            else:
+                have2 = _call((G.solve_left if side == "left" else G.solve_right), bc)
+                evals += 1
+                h2 = have2 if isinstance(have2, str) else nz(dict(have2), Poly.zero)
+                if h2 != exp:
+                    fails.append(_fail(f"solve_{side}(b) called twice with the same b gives the same answer", dict(inp0, b=bname), h2, exp))
+            if n <= 3 and bname == "indeterminate":
+                # the same system on a graph reached by overwriting edges with zero
+                bz = Poly.chart()
+                for i, v in b.items():
+                    bz[i] = v
+                Gz = _call(build_by_zeroing)
+                have3 = Gz if isinstance(Gz, str) else _call((Gz.solve_left if side == "left" else Gz.solve_right), bz)
+                evals += 1
+                h3 = have3 if isinstance(have3, str) else nz(dict(have3), Poly.zero)
+                if h3 != exp:
+                    fails.append(_fail(f"solve_{side}(b) after edges were overwritten by zero", dict(inp0, b=bname), h3, exp))
     # ---- non-commutative weights (words over edge letters): the order of the factors in every
     # product is observable, the property only assumes a closed semiring
     from vf.semirings import NCPoly
